@@ -161,7 +161,7 @@ func (r *run) play(id int, dir string, seed uint64) error {
 			}
 			continue
 		}
-		got, err := r.doStep(s)
+		got, err := r.doStep(i, s)
 		if err != nil {
 			return err
 		}
@@ -287,7 +287,7 @@ func (r *run) restart() error {
 }
 
 // doStep performs one step of the behaviour; a non-empty answer says where the node was instead (DRIFT)
-func (r *run) doStep(s step) (string, error) {
+func (r *run) doStep(i int, s step) (string, error) {
 	gate := func(who, prefix string) string {
 		want := r.norm(prefix)
 		r.e.await(func() bool { return r.e.find(who) != nil }, gateWait) // hand-written schedules carry no "at"
@@ -314,15 +314,14 @@ func (r *run) doStep(s step) (string, error) {
 		got = gate("dl", "logs")
 	case "dlhdr":
 		got = gate("dl", "hdr")
-	case "rdtick", "rdcmp":
-		if len(s.At) == 3 && strings.HasPrefix(s.At[2], "notify") {
+	case "rdtick":
+		// the detector stamps a detection with the second in which its tick started
+		if r.tickDetects(i) {
 			r.spaceDetections()
 		}
-		if s.A == "rdtick" {
-			got = gate("rd", "fin")
-		} else {
-			got = gate("rd", "hdr")
-		}
+		got = gate("rd", "fin")
+	case "rdcmp":
+		got = gate("rd", "hdr")
 	case "track":
 		got = gate("drv", "track")
 	case "process":
@@ -347,6 +346,20 @@ func (r *run) doStep(s step) (string, error) {
 		return "after " + s.A + ": " + r.where(), nil
 	}
 	return "", nil
+}
+
+// tickDetects: does the tick that starts with step i end in a notification (according to the behaviour)?
+func (r *run) tickDetects(i int) bool {
+	for k := i; k < len(r.b.Steps); k++ {
+		s := r.b.Steps[k]
+		if k > i && (s.A == "rdtick" || s.A == "restart") {
+			return false
+		}
+		if (s.A == "rdtick" || s.A == "rdcmp") && len(s.At) == 3 && strings.HasPrefix(s.At[2], "notify") {
+			return true
+		}
+	}
+	return false
 }
 
 func (r *run) spaceDetections() {
